@@ -154,6 +154,75 @@ pub fn confusable_pair(r: &mut Rng) -> (String, Pair) {
     (how.to_string(), if r.bool() { (base, other) } else { (other, base) })
 }
 
+/// Names that the usual textual renderings cannot tell apart from `n`: labels joined with '.', octets outside the
+/// printable range written as a backslash and decimal digits (padded to three or not).  A dictionary, cache or
+/// route table keyed on such a rendering instead of on the label sequence takes the twin for the name.
+pub fn text_twins(n: &[Vec<u8>]) -> Vec<(Vec<Vec<u8>>, &'static str)> {
+    let mut out = Vec::new();
+    if n.len() >= 2 && n[0].len() + n[1].len() + 1 <= 63 {
+        let mut m = n[0].clone();
+        m.push(b'.');
+        m.extend_from_slice(&n[1]);
+        let mut t = vec![m];
+        t.extend_from_slice(&n[2..]);
+        out.push((t, "labels-merged"));
+    }
+    for (i, l) in n.iter().enumerate() {
+        if let Some(p) = l.iter().position(|c| *c == b'.') {
+            if p > 0 && p + 1 < l.len() {
+                let mut t = n[..i].to_vec();
+                t.push(l[..p].to_vec());
+                t.push(l[p + 1..].to_vec());
+                t.extend_from_slice(&n[i + 1..]);
+                out.push((t, "label-split"));
+            }
+        }
+        if let Some(p) = l.iter().position(|c| !(32..=127).contains(c)) {
+            for (padded, how) in [(false, "escape-unpadded"), (true, "escape-padded")] {
+                let esc = if padded { format!("\\{:03}", l[p]) } else { format!("\\{}", l[p]) };
+                let mut m = l[..p].to_vec();
+                m.extend_from_slice(esc.as_bytes());
+                m.extend_from_slice(&l[p + 1..]);
+                if m.len() <= 63 {
+                    let mut t = n.to_vec();
+                    t[i] = m;
+                    out.push((t, how));
+                }
+            }
+        }
+        // two octets whose unpadded escapes run together: [1, '2'] prints like [12]
+        if l.len() >= 2 && l[0] < 10 && l[1].is_ascii_digit() {
+            let v = (l[0] as u32) * 10 + (l[1] - b'0') as u32;
+            let mut m = vec![v as u8];
+            m.extend_from_slice(&l[2..]);
+            let mut t = n.to_vec();
+            t[i] = m;
+            out.push((t, "escapes-run-together"));
+        }
+    }
+    out
+}
+
+/// A first label that has text twins (a dot, an unprintable octet, an octet followed by a digit).
+pub fn twinnable_label(r: &mut Rng) -> Vec<u8> {
+    match r.below(5) {
+        0 => b"www.example".to_vec(),
+        1 => {
+            let mut l: Vec<u8> = (0..r.range(1, 6)).map(|_| b'a' + r.below(26) as u8).collect();
+            l.push(b'.');
+            l.extend((0..r.range(1, 6)).map(|_| b'a' + r.below(26) as u8));
+            l
+        }
+        2 => vec![r.below(32) as u8],
+        3 => vec![1 + r.below(9) as u8, b'0' + r.below(10) as u8],
+        _ => {
+            let mut l = vec![b'h', 128 + r.below(128) as u8];
+            l.push(b'0' + r.below(10) as u8);
+            l
+        }
+    }
+}
+
 #[cfg(test)]
 mod tests {
     #[test]
